@@ -377,7 +377,8 @@ pub fn run(rep: &mut Report) {
                     }
                 }
             } else if p.impl_out.starts_with("panic") {
-                let f = if p.impl_out.contains("with overflow") { "C14-gcno-counter-overflow".to_string() } else { format!("C14-panic@{}", super::panic_site(&p.impl_out).unwrap_or_default()) };
+                let confirmed = p.impl_out.contains("with overflow") && super::counter_overflow_confirmed(rep, &p.impl_out, g, &[d[..p.cut].to_vec()]);
+                let f = if confirmed { "C14-gcno-counter-overflow".to_string() } else { format!("C14-panic@{}", super::panic_site(&p.impl_out).unwrap_or_default()) };
                 rep.fail("oracle", Some(&f), format!("the gcda reader panicked on a truncated file ({} cut at {}): {}", p.name, p.cut, p.impl_out), case.clone());
                 continue;
             }
@@ -419,7 +420,7 @@ pub fn run(rep: &mut Report) {
         let case = json!({"op": "gcnosafe.witness", "what": what, "gcno_hex": hex(g), "gcdas_hex": ds.iter().map(|d| hex(d)).collect::<Vec<_>>()});
         let imp = if out.starts_with("panic") { "panic".to_string() } else { out.clone() };
         rep.count(&format!("gcnosafe.witness.impl.{}", imp.split(' ').next().unwrap_or("")));
-        if out.starts_with("panic") && out.contains("with overflow") {
+        if out.starts_with("panic") && out.contains("with overflow") && super::counter_overflow_confirmed(rep, out, g, ds) {
             rep.fail("oracle", Some("C14-gcno-counter-overflow"), format!("arithmetic overflow in the gcno/gcda reader ({}): {}", what, out.chars().take(120).collect::<String>()), case.clone());
         } else if out.starts_with("panic") {
             rep.fail("oracle", Some(&format!("C14-panic@{}", super::panic_site(out).unwrap_or_default())), format!("reader panicked ({}): {}", what, out), case.clone());
